@@ -37,11 +37,51 @@ def _apply(ctx0, edits):
   return overlay
 
 
+def _apply_patch(ctx0, patch_rel):
+  """Overlay obtained by applying a unified diff (seeded/<id>/patch.diff) to
+  copies of the files it names, in a temp dir outside /repo and /verif."""
+  import re
+  import shutil
+  import subprocess
+  import tempfile
+  path = os.path.join(core.VERIF, patch_rel)
+  try:
+    text = open(path).read()
+  except OSError:
+    return None
+  files = sorted(set(re.findall(r"^\+\+\+ b/(\S+)", text, re.M)))
+  tmp = tempfile.mkdtemp(prefix="verif-patch-")
+  try:
+    for rel in files:
+      dst = os.path.join(tmp, rel)
+      os.makedirs(os.path.dirname(dst), exist_ok=True)
+      if ctx0.exists(rel):
+        with open(dst, "w") as f:
+          f.write(ctx0.read(rel))
+    p = subprocess.run(["git", "apply", "--unsafe-paths", "--directory=" + tmp, path],
+                       cwd="/", capture_output=True, text=True)
+    if p.returncode != 0:
+      p = subprocess.run(["patch", "-p1", "-s", "-i", path], cwd=tmp,
+                         capture_output=True, text=True)
+      if p.returncode != 0:
+        return None
+    overlay = {}
+    for rel in files:
+      with open(os.path.join(tmp, rel)) as f:
+        overlay[rel] = f.read()
+    return overlay
+  finally:
+    shutil.rmtree(tmp, ignore_errors=True)
+
+
 def _run_one(args):
   prop, v = args
-  edits = v.get("edits") or [(v["file"], v["old"], v["new"])]
   ctx0 = core.Ctx()
-  overlay = _apply(ctx0, edits)
+  if "patch" in v:
+    overlay = _apply_patch(ctx0, v["patch"])
+  else:
+    edits = v.get("edits") or [(v["file"], v["old"], v["new"])]
+    overlay = _apply(ctx0, edits)
   if overlay is None:
     return {"name": v["name"], "rule": v["rule"], "expect": v["expect"],
             "outcome": "skipped", "ok": True,
